@@ -76,6 +76,58 @@ Proof.
 Qed.
 End P.
 
+(* ---- the edge record ---------------------------------------------------------------------- *)
+Section Edge.
+Context {V : Type} (d : V).
+
+Lemma feature_range' n L c : 0 < L -> c < n * L -> 1 <= snd (feature L c) <= L.
+Proof.
+  intros HL Hc. unfold feature; cbn [snd]. pose proof (Nat.mod_upper_bound c L ltac:(lia)). lia.
+Qed.
+
+(* For every series, every max_lag, every selected set S of candidate indices and every reported
+   parent sidx in S, the triple the edge's information and test are computed on is
+   ( X_u delayed by exactly tau,  X_i at the present time,  the OTHER reported parents of i delayed
+   by their own lags ), all over the common window t = L .. T-1. *)
+Theorem edge_semantics (s : series) n L i S sidx :
+  0 < L -> L < length s -> (forall c, In c S -> c < n * L) -> In sidx S ->
+  edge_triple d s L i S sidx =
+    ( delayed d s L (snd (feature L sidx)) (fst (feature L sidx)),
+      present d s L i,
+      map (fun c => delayed d s L (snd (feature L c)) (fst (feature L c)))
+          (filter (fun k => negb (Nat.eqb k sidx)) S) ).
+Proof.
+  intros HL HT HS Hin. unfold edge_triple, x_lagged_col.
+  rewrite (lagged_col_is_delayed d s L _ _ (feature_range' n L sidx HL (HS _ Hin)) HT).
+  rewrite y_col_is_present. f_equal. apply map_ext_in. intros c Hc.
+  apply filter_In in Hc. destruct Hc as [Hc _].
+  apply lagged_col_is_delayed; [exact (feature_range' n L c HL (HS _ Hc))|exact HT].
+Qed.
+
+(* the conditioning block holds exactly the other reported parents: not sidx itself, nothing else *)
+Theorem edge_conditioning_is_other_parents (S : list nat) sidx c :
+  In c (filter (fun k => negb (Nat.eqb k sidx)) S) <-> In c S /\ c <> sidx.
+Proof.
+  rewrite filter_In. split; intros [H1 H2]; split; try exact H1.
+  - intros ->. rewrite Nat.eqb_refl in H2. discriminate.
+  - destruct (Nat.eqb_spec c sidx); [contradiction|reflexivity].
+Qed.
+
+(* every column of the triple lives on the same window of T - L samples *)
+Theorem edge_window (s : series) n L i S sidx :
+  0 < L -> L < length s -> (forall c, In c S -> c < n * L) -> In sidx S ->
+  let '(X, Y, Zs) := edge_triple d s L i S sidx in
+  length X = length s - L /\ length Y = length s - L /\ Forall (fun z => length z = length s - L) Zs.
+Proof.
+  intros HL HT HS Hin. unfold edge_triple, x_lagged_col. repeat split.
+  - apply lagged_col_length; [apply (feature_range' n L sidx HL (HS _ Hin))|lia].
+  - apply y_col_length.
+  - rewrite Forall_forall. intros z Hz. apply in_map_iff in Hz. destruct Hz as (c & <- & Hc).
+    apply filter_In in Hc. destruct Hc as [Hc _].
+    apply lagged_col_length; [apply (feature_range' n L c HL (HS _ Hc))|lia].
+Qed.
+End Edge.
+
 (* ---- labelling --------------------------------------------------------------------------- *)
 Theorem feature_range n L c : 0 < L -> c < n * L -> fst (feature L c) < n /\ 1 <= snd (feature L c) <= L.
 Proof.
